@@ -6,8 +6,9 @@ patch="$1"; shift
 cd /repo || exit 2
 if ! git apply --check "$patch" 2>/dev/null; then echo "PATCH-DOES-NOT-APPLY $patch"; exit 2; fi
 git apply "$patch"
-trap 'git -C /repo checkout -- . ; rm -f /verif/replays/*' EXIT
+trap 'git -C /repo checkout -- . ; rm -rf /verif/target/seed_eval' EXIT
 cd /verif
+export HV_REPLAY_DIR=/verif/target/seed_eval/replays HV_EVIDENCE_DIR=/verif/target/seed_eval/evidence
 for p in "$@"; do
   out=$(./hv_run check "$p" --tier quick 2>&1)
   code=$?
